@@ -2,7 +2,9 @@
 #include "utf_iterator.h"
 #include "encoding_validators.h"
 #include <booster/locale/utf.h>
+#include <booster/locale/encoding_utf.h>
 #include <stddef.h>
+#include <string>
 namespace cppcms { namespace utf8 {
 template uint32_t next<char const *>(char const *&, char const *, bool, bool);
 template bool validate<char const *>(char const *, char const *, size_t &, bool);
@@ -33,4 +35,8 @@ bool c14_validators(char const *b, char const *e, size_t &n)
 	r = windows_1258_valid(b, e, n) && r;
 	r = koi8_valid(b, e, n) && r;
 	return r;
+}
+std::string c14_utf_to_utf(char const *b, char const *e, booster::locale::conv::method_type how)
+{
+	return booster::locale::conv::utf_to_utf<char, char>(b, e, how);
 }
